@@ -48,11 +48,15 @@ pub struct Auth {
 
 impl Auth {
     fn len(&self) -> usize {
-        let mut len = 1  // reason code
-                    + 1; // property len
+        let mut len = 1; // reason code
 
         if let Some(properties) = &self.properties {
-            len += properties.len();
+            let properties_len = properties.len();
+            let properties_len_len = len_len(properties_len);
+            len += properties_len_len + properties_len;
+        } else {
+            // just 1 byte representing 0 len properties
+            len += 1;
         }
 
         len
@@ -107,22 +111,21 @@ impl AuthProperties {
 
         if let Some(method) = &self.method {
             let m_len = method.len();
-            len += 1 + m_len;
+            len += 1 + 2 + m_len;
         }
 
         if let Some(data) = &self.data {
             let d_len = data.len();
-            len += 1 + len_len(d_len) + d_len;
+            len += 1 + 2 + d_len;
         }
 
         if let Some(reason) = &self.reason {
             let r_len = reason.len();
-            len += 1 + r_len;
+            len += 1 + 2 + r_len;
         }
 
         for (key, value) in self.user_properties.iter() {
-            let p_len = key.len() + value.len();
-            len += 1 + p_len;
+            len += 1 + 2 + key.len() + 2 + value.len();
         }
 
         len
@@ -146,7 +149,7 @@ impl AuthProperties {
             match property(prop)? {
                 PropertyType::AuthenticationMethod => {
                     let method = read_mqtt_string(bytes)?;
-                    cursor += method.len();
+                    cursor += 2 + method.len();
                     props.method = Some(method);
                 }
                 PropertyType::AuthenticationData => {
@@ -156,7 +159,7 @@ impl AuthProperties {
                 }
                 PropertyType::ReasonString => {
                     let reason = read_mqtt_string(bytes)?;
-                    cursor += reason.len();
+                    cursor += 2 + reason.len();
                     props.reason = Some(reason);
                 }
                 PropertyType::UserProperty => {
